@@ -269,7 +269,7 @@ func (c *ctx) refConn(d model.Doc, i int) {
 		case "unknown":
 			c.r.Probes["band:"+pr.Exp.Band]++
 			// outside the modelled domain: the soundness direction still holds
-			if g < len(replies) && pr.H.Type == model.TypeAuthen {
+			if g < len(replies) && pr.H.Type == model.TypeAuthen && pr.H.Seq != 255 && replies[g].H.Session == pr.H.Session && replies[g].H.Seq == pr.H.Seq+1 {
 				body := model.Obfuscate(replies[g].H, srvKey, replies[g].Body)
 				if v, err := model.DecodeAuthenReply(body); err == nil && v.Status == model.AuthenPass {
 					c.vs("C10/pass-without-basis", pr.Exp.Band, "conn %d session %d: PASS in answer to a malformed or out-of-place packet %s", id, pr.H.Session, hstr(pr.H))
